@@ -461,6 +461,7 @@ func runC17(r *Run, verifDir string) {
 
 	c17N9(r)
 	c17N11(r)
+	errorsNotCarried(r, "C17.N12")
 	{
 		lc := &lexCtx{r: r, p: r.P, ord: map[string]int{}}
 		lc.l1Hex("C17.N10")
@@ -904,5 +905,71 @@ func c17N11(r *Run) {
 		default:
 			r.OK("C17.N11", key, fn.Pos(), "%d successful return(s), each the value of a comma-ok registry lookup on its ok edge", n)
 		}
+	}
+}
+
+// errorsNotCarried: in package ttlv an error is looked at in the iteration that produced it. An error variable that
+// lives across the iterations of a loop and is assigned from a call inside it is overwritten by the next iteration:
+// only the last part's verdict survives, so "NoSuchFlag Sign" reads as Sign and an unregistered name denotes a number.
+func errorsNotCarried(r *Run, rule string) {
+	r.Rule(rule, "no error value is carried around a loop of package ttlv (each parse or lookup error is tested in the iteration that produced it)", 1)
+	n, nLoops := 0, 0
+	for _, fn := range pkgFuncs(r.P, "ttlv") {
+		for _, hdr := range fn.Blocks {
+			isHdr := false
+			for _, pr := range hdr.Preds {
+				if hdr.Dominates(pr) {
+					isHdr = true
+				}
+			}
+			if !isHdr {
+				continue
+			}
+			nLoops++
+			for _, in := range hdr.Instrs {
+				ph, ok := in.(*ssa.Phi)
+				if !ok {
+					break
+				}
+				if !isErrorType(ph.Type()) {
+					continue
+				}
+				// a back edge bringing a freshly produced error (not the phi itself, not nil)
+				var produced func(v ssa.Value, d int) bool
+				produced = func(v ssa.Value, d int) bool {
+					if d > 4 || v == ssa.Value(ph) || isNilConst(v) {
+						return false
+					}
+					if p2, ok := v.(*ssa.Phi); ok {
+						for _, e := range p2.Edges {
+							if produced(e, d+1) {
+								return true
+							}
+						}
+						return false
+					}
+					return true
+				}
+				for i, e := range ph.Edges {
+					knownNil := false
+					for _, dc := range dominatingConds(hdr.Preds[i]) {
+						if bo, ok := dc.cond.(*ssa.BinOp); ok && bo.X == e && isNilConst(bo.Y) && ((bo.Op == token.NEQ && !dc.outcome) || (bo.Op == token.EQL && dc.outcome)) {
+							knownNil = true // tested in this iteration: the value that goes round is nil
+						}
+					}
+					if hdr.Dominates(hdr.Preds[i]) && !knownNil && produced(e, 0) {
+						// harmless when the carried value is never read after the loop or in a later iteration
+						if ph.Referrers() == nil || len(*ph.Referrers()) == 0 {
+							continue
+						}
+						n++
+						r.Bad(rule, fmt.Sprintf("%s/carried-error#%d", fnKey(fn), n), posOr(ph.Pos(), fn.Pos()), "%s keeps an error in a variable that lives across the iterations of a loop and assigns it inside the loop: the error of one part is overwritten by the next part's result before it is tested, so a rejected part (an unregistered name, a malformed number) is silently dropped unless it is the last one", fnKey(fn))
+					}
+				}
+			}
+		}
+	}
+	if n == 0 {
+		r.OK(rule, "ttlv/carried-error", token.NoPos, "%d loop(s) of package ttlv, none carrying an error value from one iteration to the next", nLoops)
 	}
 }
